@@ -1105,7 +1105,7 @@ var pureExternal = map[string]bool{
 	// error construction: allocates, but has no effect a caller can observe other than the returned value
 	"pkgerrors.Wrap": true, "pkgerrors.Wrapf": true, "pkgerrors.New": true, "pkgerrors.Errorf": true,
 	"pkgerrors.WithMessage": true, "pkgerrors.WithStack": true, "errors.New": true, "fmt.Errorf": true, "fmt.Sprintf": true,
-	"time.Parse": true, "(time.Time).Format": true, "(time.Time).UTC": true, "bytes.Equal": true, "bytes.HasPrefix": true,
+	"time.Parse": true, "(time.Time).Format": true, "(time.Time).AppendFormat": true, "(time.Time).UTC": true, "bytes.Equal": true, "bytes.HasPrefix": true,
 	"strings.HasPrefix": true, "encoding/hex.Decode": true, "encoding/hex.EncodedLen": true, "encoding/hex.DecodedLen": true,
 }
 
